@@ -3,6 +3,8 @@ package rules
 import (
 	"encoding/json"
 	"fmt"
+	"go/types"
+	"golang.org/x/tools/go/ssa"
 	"os"
 	"path/filepath"
 	"strings"
@@ -16,6 +18,19 @@ type indexTable struct {
 		Expr      string `json:"expr"`
 		Invariant string `json:"invariant"`
 	} `json:"entries"`
+	// invariants attached to a type: while the struct's only bool field is true its only slice field has ≥ min_len elements
+	TypeInvariants []struct {
+		Type      string `json:"type"`
+		MinLen    int64  `json:"min_len"`
+		Invariant string `json:"invariant"`
+	} `json:"type_invariants"`
+	// the cursor of a cursor type: any slice field of the type indexed by (or resliced from) the named int field of the
+	// same object, plus 0 or 1
+	CursorInvariants []struct {
+		Type      string `json:"type"`
+		Cursor    string `json:"cursor"`
+		Invariant string `json:"invariant"`
+	} `json:"cursor_invariants"`
 }
 
 func loadIndexTable(c *Ctx) *indexTable {
@@ -58,6 +73,11 @@ func init() {
 					continue
 				}
 				matched := false
+				if inv, ok := cursorInvariant(c, tab, site); ok {
+					matched = true
+					s.OK(key, pos, "reviewed invariant: "+inv)
+					continue
+				}
 				for i, e := range tab.Entries {
 					if e.Function == fn && e.Expr == site.Expr {
 						used[i] = true
@@ -79,6 +99,57 @@ func init() {
 		},
 	})
 	_ = strings.Join
+}
+
+// cursorInvariant: the site indexes / reslices a slice field of a cursor object by that object's own cursor field
+// (+0, or +1 for the low bound of a reslice): covered by the reviewed cursor invariant of the type, whatever the
+// fields holding the code points are called.
+func cursorInvariant(c *Ctx, tab *indexTable, site *indexSite) (string, bool) {
+	ld, ok := site.X.(*ssa.UnOp)
+	if !ok {
+		return "", false
+	}
+	fa, ok := ld.X.(*ssa.FieldAddr)
+	if !ok {
+		return "", false
+	}
+	tn := namedOf(fa.X.Type())
+	for _, ci := range tab.CursorInvariants {
+		if ci.Type != tn {
+			continue
+		}
+		if _, isSlice := ld.Type().Underlying().(*types.Slice); !isSlice {
+			continue
+		}
+		var idx ssa.Value
+		maxK := int64(0)
+		switch site.Kind {
+		case "index":
+			idx = site.Index
+		case "slice":
+			if site.High != nil || site.Low == nil {
+				continue
+			}
+			idx, maxK = site.Low, 1
+		}
+		if idx == nil {
+			continue
+		}
+		t := termOf(idx)
+		if t.k < 0 || t.k > maxK || t.base == nil {
+			continue
+		}
+		cl, ok := t.base.(*ssa.UnOp)
+		if !ok {
+			continue
+		}
+		cfa, ok := cl.X.(*ssa.FieldAddr)
+		if !ok || cfa.X != fa.X || fieldElem(cfa.X.Type(), cfa.Field) != tn+":"+ci.Cursor {
+			continue
+		}
+		return ci.Invariant, true
+	}
+	return "", false
 }
 
 // ---------------------------------------------------------------------------------------------------------------
